@@ -71,9 +71,10 @@ def enumerate_states(tier, seed):
         for s in SIZES_USED[t]:
             for m in (0, 1):
                 for first in range(len(POSES) * NMODES):
-                    states.append({"t": t, "s": s, "m": m, "first": first, "depth": depth if tier == "thorough" or m == 0 else 2})
-    meta = {"bound_completed": "all update histories of length <= 2 over 24 update actions and of length 3 over a reduced alphabet of 7 (Margin: length <= %d), both query schedules" %
-                               (3 if tier == "thorough" else 2), "exhaustive": True}
+                    states.append({"t": t, "s": s, "m": m, "first": first, "depth": depth if tier == "thorough" or m == 0 else 2,
+                                   **({"full3": 1} if tier == "thorough" and m == 0 else {})})
+    meta = {"bound_completed": "all update histories of length <= 2 over 24 update actions and of length 3 over %s (Margin: length <= %d), both query schedules" %
+                               (("the full alphabet of 24 (Margin: reduced alphabet of 7)", 3) if tier == "thorough" else ("a reduced alphabet of 7", 2)), "exhaustive": True}
     return states, meta
 
 
@@ -208,7 +209,8 @@ def run_state(desc):
     if depth >= 2:
         seqs += [(desc["first"], x) for x in range(nact)]
     if depth >= 3:
-        seqs += [(desc["first"], x, y) for x in reduced for y in reduced]
+        third = list(range(nact)) if desc.get("full3") else reduced
+        seqs += [(desc["first"], x, y) for x in third for y in third]
     sigs = set()
     for seq in seqs:
         for schedule in ("each", "end"):
